@@ -143,6 +143,11 @@ def hex_factory(ns, private):
                 obs.append(oblige(eng, 'from_hex accepts every canonical key string', good, mk))
                 if not documented(out):
                     obs.append(oblige(eng, 'malformed key encodings are rejected with TypeError / ValueError', True, mk))
+                # something that is not a key object is never "equivalent" to anything, itself included (wrong types are rejected)
+                eq = run_call(it, K.is_equivalent_to, [arg, arg])
+                if is_ret(eq):
+                    v = eq[1].e if isinstance(eq[1], SBool) else z3.BoolVal(bool(eq[1]))
+                    obs.append(oblige(eng, 'a value that is not a key object is never reported equivalent', v, mk))
             m = path_model(eng)
             if m is None:
                 return None
@@ -322,6 +327,11 @@ def concrete(case):
                 probs.append(f'canonical key string rejected: {oc["cls"]}')
             elif not CC.documented(oc):
                 probs.append(f'malformed key encoding rejected with {oc["cls"]}')
+            try:
+                if K.is_equivalent_to(arg, arg):
+                    probs.append(f'is_equivalent_to reports the non-key value {arg!r:.60} equivalent to itself')
+            except Exception:
+                pass
         return {'outcome': oc, 'problems': probs}
     raise ValueError(sc)
 
